@@ -223,6 +223,15 @@ def run_ctor(prog, cls, fn: ast.FunctionDef, env, track):
                 e = st.exc.func if isinstance(st.exc, ast.Call) else st.exc
                 return ("refuse", norm(e) if e is not None else "")
             elif isinstance(st, (ast.Assign, ast.AnnAssign)):
+                # a conversion of a tracked argument that refuses by ELEMENT TYPE (`x.astype(t, casting="same_kind")`: TypeError for a
+                # float array into an integer type) refuses arguments of exactly the accepted shape: the descriptors carry no
+                # element type, so the statement is a refusal for some argument of every accepted descriptor
+                if st.value is not None:
+                    for c_ in ast.walk(st.value):
+                        if isinstance(c_, ast.Call) and isinstance(c_.func, ast.Attribute) and c_.func.attr == "astype" and isinstance(c_.func.value, ast.Name) and c_.func.value.id in live:
+                            k_ = next((k.value for k in c_.keywords if k.arg == "casting"), c_.args[2] if len(c_.args) > 2 else None)
+                            if k_ is not None and not (isinstance(k_, ast.Constant) and k_.value == "unsafe"):
+                                return ("refuse", f"TypeError from astype(casting={norm(k_)})")
                 targets = st.targets if isinstance(st, ast.Assign) else [st.target]
                 for t in targets:
                     if isinstance(t, ast.Name) and t.id in live:
